@@ -586,3 +586,7 @@ def io_raises(ctx, st, exc):
 
 UNITS.append(Unit("C16", "jsonargparse._link_arguments:ActionLink.instantiation_order", io_setup, io_post, io_raises,
                   trusted=["DirectedGraph.add_edge / get_topological_order by contract (their own units)", "get_link_actions(parser, 'instantiate') lists the instantiation links", "re.sub on concrete strings evaluated by CPython"]))
+
+# the declaration of a link (cycle check at link creation; a refused link leaves the parser usable)
+from contracts.share import shared  # noqa: E402
+UNITS += shared("C16", "contracts.c15", "ActionLink.__init__")
